@@ -120,6 +120,16 @@ class SObj(Sym):
         return f"<SObj {self.name}:{c}>"
 
 
+class SOpt(Sym):
+    """Optional value: None when `isnone` holds, else `value`.  `x is None` does not fork; any other
+    use resolves it by forking."""
+
+    def __init__(self, isnone, value):
+        self.isnone = isnone
+        self.value = value
+        self.t = isnone
+
+
 class Opaque(Sym):
     """Result of an unmodelled call: nothing is known about it."""
 
